@@ -22,41 +22,10 @@ func runC12(c *engine.Ctx) {
 
 	// ---- R1 ----
 	c.Rule("R1", "RegisterControl starts the new control only after WaitClosed on the control that ControlManager.Add returned (when there is one); Add calls Replaced on the previous control and stores the new one")
+	n := checkStartAfterWait(c)
 	reg := fn(c, "server.Service.RegisterControl")
 	cmAdd := method(c, "server", "ControlManager", "Add")
-	start := method(c, "server", "Control", "Start")
-	wait := method(c, "server", "Control", "WaitClosed")
-	n := 0
-	if reg != nil && cmAdd != nil && start != nil && wait != nil {
-		for _, sc := range engine.CallsTo(reg, start) {
-			n++
-			c.AllPaths("server.Service.RegisterControl>start", engine.PathCheck{Fn: reg, Sink: engine.Is(sc),
-				Event: func(in ssa.Instruction) string {
-					if call, ok := in.(ssa.CallInstruction); ok && engine.IsCallTo(in, wait) {
-						if cl, _ := engine.ResultOfCall(engine.Unwrap(engine.CallArgs(call)[0])); cl != nil && engine.SameFunc(engine.CalleeObj(cl), cmAdd) {
-							return "wait-old"
-						}
-					}
-					if engine.IsCallTo(in, cmAdd) {
-						return "add"
-					}
-					return ""
-				},
-				Pred: func(st *engine.PathState) string {
-					if !st.HasEvent("add") {
-						return "the control is started without having been entered into the control manager"
-					}
-					isNil, known := st.IsNil(resultOf(cmAdd))
-					if !known {
-						return "the control is started without looking at the previous control returned by Add"
-					}
-					if !isNil && !(st.HasEvent("wait-old") && st.EventIndex("wait-old") > st.EventIndex("add")) {
-						return "a previous session exists but the new one is started without waiting for it to close completely"
-					}
-					return ""
-				}}, "replace, wait for the old session, then start")
-		}
-	}
+	_ = cmAdd
 	if af := fn(c, "server.ControlManager.Add"); af != nil {
 		idx := field(c, "server", "ControlManager", "ctlsByRunID")
 		connF := field(c, "server", "Control", "conn")
@@ -362,6 +331,9 @@ func runC12(c *engine.Ctx) {
 
 	// ---- R14 ----
 	checkDoneOnlyByReadLoop(c, "R14")
+	// ---- R15 (shared with C16.R28) ----
+	checkSyncStateHandlers(c, "R15")
+	checkDelAfterTeardown(c, "R16")
 
 	// ---- R10 the name a proxy is registered under is the name it owns ----
 	c.Rule("R10", "ProxyBaseConfig.UnmarshalFromMsg copies NewProxy.ProxyName into Name verbatim (no trimming or case change): RegisterProxy registers the name under the message's spelling and every removal uses the proxy's own Name")
@@ -500,6 +472,81 @@ func checkDoneOnlyByReadLoop(c *engine.Ctx, rule string) {
 			c.Check(bad == "", p.FuncName(f)+">close-doneCh", in.Pos(), len(seen)+1, nil,
 				"doneCh is closed here only when the read loop ends (also reachable from %s: Done() would fire while a message handler of the read loop may still be running)", bad)
 		})
+	}
+	c.Floor(n, 1)
+}
+
+// checkStartAfterWait (first half of C12.R1, shared as C10.R19): the new control is started only after the control it
+// replaces has finished its teardown. Returns the number of Start sites examined.
+func checkStartAfterWait(c *engine.Ctx) int {
+	reg := fn(c, "server.Service.RegisterControl")
+	cmAdd := method(c, "server", "ControlManager", "Add")
+	start := method(c, "server", "Control", "Start")
+	wait := method(c, "server", "Control", "WaitClosed")
+	n := 0
+	if reg != nil && cmAdd != nil && start != nil && wait != nil {
+		for _, sc := range engine.CallsTo(reg, start) {
+			n++
+			c.AllPaths("server.Service.RegisterControl>start", engine.PathCheck{Fn: reg, Sink: engine.Is(sc),
+				Event: func(in ssa.Instruction) string {
+					if call, ok := in.(ssa.CallInstruction); ok && engine.IsCallTo(in, wait) {
+						if cl, _ := engine.ResultOfCall(engine.Unwrap(engine.CallArgs(call)[0])); cl != nil && engine.SameFunc(engine.CalleeObj(cl), cmAdd) {
+							return "wait-old"
+						}
+					}
+					if engine.IsCallTo(in, cmAdd) {
+						return "add"
+					}
+					return ""
+				},
+				Pred: func(st *engine.PathState) string {
+					if !st.HasEvent("add") {
+						return "the control is started without having been entered into the control manager"
+					}
+					isNil, known := st.IsNil(resultOf(cmAdd))
+					if !known {
+						return "the control is started without looking at the previous control returned by Add"
+					}
+					if !isNil && !(st.HasEvent("wait-old") && st.EventIndex("wait-old") > st.EventIndex("add")) {
+						return "a previous session exists but the new one is started without waiting for it to close completely"
+					}
+					return ""
+				}}, "replace, wait for the old session, then start")
+		}
+	}
+	return n
+}
+
+// checkDelAfterTeardown (R16): a session stays findable under its run id until its teardown is complete. The goroutine
+// that removes it from the control manager first waits for Control.WaitClosed (doneCh, closed last by the worker) — a
+// re-login that no longer finds the draining session waits for nothing and meets the old proxies still registered.
+func checkDelAfterTeardown(c *engine.Ctx, rule string) {
+	c.Rule(rule, "every call of ControlManager.Del is preceded, on every path of its function, by Control.WaitClosed on the control it removes")
+	p := c.P
+	del := method(c, "server", "ControlManager", "Del")
+	wait := method(c, "server", "Control", "WaitClosed")
+	if del == nil || wait == nil {
+		return
+	}
+	n := 0
+	for _, f := range p.RepoFuncs() {
+		f := f
+		for _, dc := range engine.CallsTo(f, del) {
+			n++
+			c.AllPaths(p.FuncName(f)+">del-after-teardown", engine.PathCheck{Fn: f, Sink: engine.Is(dc),
+				Event: func(in ssa.Instruction) string {
+					if engine.IsCallTo(in, wait) {
+						return "waited"
+					}
+					return ""
+				},
+				Pred: func(st *engine.PathState) string {
+					if st.HasEvent("waited") {
+						return ""
+					}
+					return "the control is removed from the run-id table without waiting for its teardown (WaitClosed): a client that reconnects meanwhile is acknowledged while its old proxies are still registered"
+				}}, "Del only after WaitClosed")
+		}
 	}
 	c.Floor(n, 1)
 }
